@@ -29,8 +29,8 @@ structure Facts where
   hasMdlDoc : Bool             -- a document with docType org.iso.18013.5.1.mDL
   x5chainPresent : Bool        -- label 33 in the UNPROTECTED issuerAuth header
   x5chainParses : Bool
-  namespacesPresent : Bool
-  coreNamespacePresent : Bool
+  namespacesPresent : Bool     -- issuerSigned.nameSpaces present (optional; not required since the C01 `fix:` commit)
+  coreNamespacePresent : Bool  -- a namespace the reader reports (core or AAMVA) is among them
   chainErrors : Nat            -- number of errors of ValidationRuleset::Mdl.validate
   issuerKeyParses : Bool       -- end-entity SPKI is a P-256 key
   issuerAlg : ProtAlg
@@ -88,7 +88,7 @@ def deviceAuthentication (f : Facts) : Bool :=
 /-- `handle_response` -/
 def handleResponse (f : Facts) : Outcome :=
   if !(f.decrypts && f.decodes) then ⟨.unchecked, .unchecked, [.decryption], false⟩ else
-  if !(f.hasDocuments && f.hasMdlDoc && f.x5chainPresent && f.x5chainParses && f.namespacesPresent && f.coreNamespacePresent) then
+  if !(f.hasDocuments && f.hasMdlDoc && f.x5chainPresent && f.x5chainParses) then
     ⟨.unchecked, .unchecked, [.parsing], false⟩
   else
     let dev := deviceAuthentication f
@@ -96,6 +96,6 @@ def handleResponse (f : Facts) : Outcome :=
       if f.chainErrors == 0 then
         if issuerAuthentication f then (Status.valid, []) else (Status.invalid, [ErrKey.issuerAuth])
       else (Status.invalid, [ErrKey.certificate])
-    ⟨issuer, if dev then .valid else .invalid, (if dev then [] else [.deviceAuth]) ++ ierrs, true⟩
+    ⟨issuer, if dev then .valid else .invalid, (if dev then [] else [.deviceAuth]) ++ ierrs, f.namespacesPresent && f.coreNamespacePresent⟩
 
 end IsoMdl.ReaderAuth
